@@ -309,6 +309,76 @@ def _poly_of(node, defs, line=None):
     return _V.atom(roles.canon(node, defs).replace(" ", ""))
 
 
+def transform_values(ctx):
+    """Entries of the three coefficient-to-point transforms: (basis | surface curl | divergence) of local function f at
+    point q of the element, times quadrature weight and surface element; the true local multipliers enter once,
+    through map_to_localised_space (the kernels get the localised space's all-ones multipliers)."""
+    from .alg import V as _V
+
+    r = ctx.rule("FMM-TRANSFORM-VALUES", "FMM transforms: entry (nq*element + q, 3*position + f) = w_q J_element * {RWG basis value, surface curl of P1 function, 2 l_f / J}; multipliers applied once via map_to_localised_space", 6)
+    m = ctx.repo.mod(FA)
+    specs = {
+        "compute_rwg_basis_transform_impl": lambda E, F, Q, p: "BE(E, SE, QP, G, LM, NM)[:, F, Q] * (W[Q] * G.integration_elements[E])",
+        "compute_rwg_div_transform_impl": None,
+        "compute_p1_curl_transformation_impl": None,
+    }
+    for fname in specs:
+        fn = m.fn(fname)
+        defs = roles.Defs(fn)
+        pa = arg_names(fn)
+        S = roles.stores(fn.body, defs, lv=False)
+        rets = [s for s in fn.body if isinstance(s, ast.Return)]
+        D = rets[0].value.elts[0].id if rets and isinstance(rets[0].value, ast.Tuple) and isinstance(rets[0].value.elts[0], ast.Name) else None
+        st = [s for s in S if D and isinstance(s.tnode, ast.Subscript) and unparse(s.tnode.value) == D and len(s.loops) == 3]
+        ok, why, line = False, "data store not found", fn.lineno
+        if len(st) == 1:
+            s = st[0]
+            line = s.node.lineno
+            lE, lF, lQ = s.loops
+            POS, E = lE.target.elts[0].id, lE.target.elts[1].id
+            F_, Q = lF.target.id, lQ.target.id
+            slot = s.tnode.slice.elts[-1] if isinstance(s.tnode.slice, ast.Tuple) else s.tnode.slice
+            nq = _poly_of(lQ.iter.args[0], defs)
+            slot_ok = _poly_of(slot, defs).eq(_V.const(3) * nq * _V.atom(POS) + _V.atom(F_) * nq + _V.atom(Q))
+            G = pa[0]
+            W = pa[-1]
+            ex = lambda src, **kw: roles.expect(src, defs, line, lv=False, G=G, W=W, E=E, F=F_, Q=Q, **kw)
+            if fname == "compute_rwg_basis_transform_impl":
+                want = {ex("BE(E, SE, QP, G, LM, NM)[:, F, Q] * (W[Q] * G.integration_elements[E])", BE=pa[2], SE=pa[1], QP=pa[6], LM=pa[4], NM=pa[5])}
+            elif fname == "compute_rwg_div_transform_impl":
+                # 2 l_f w_q with l_f the length of local edge f (edge convention checked by EDGE-CONV)
+                lens = [x for x in S if x.op == "=" and isinstance(x.tnode, ast.Subscript) and isinstance(x.vnode, ast.Call) and unparse(x.vnode.func).endswith("linalg.norm") and x.loops == (lE,)]
+                LN = unparse(lens[0].tnode.value) if len(lens) == 3 else "?"
+                want = {ex("2.0 * L[F] * W[Q]", L=LN), ex("2 * L[F] * W[Q]", L=LN)}
+            else:
+                ref = "_np.array([[-1, 1, 0], [-1, 0, 1]])"
+                want = {ex("NM[E] * _np.cross(G.normals[E], (G.jac_inv_trans[E] @ %s)[:, F]) * (W[Q] * G.integration_elements[E])" % ref, NM=pa[2])}
+            val_ok = s.value in want
+            ok = slot_ok and val_ok and not s.guards
+            why = "slot 3*nq*position + nq*f + q: %s; value `%s` %s" % (slot_ok, s.value[:150], "as expected" if val_ok else "differs from the expected %s" % sorted(want)[0][:150])
+        r.check(ok, fname, FA, fname, line, "transform values of " + fname, why)
+    # callers: the kernels get the localised space's multipliers, the true ones come from map_to_localised_space
+    for fname, impl in (("compute_rwg_basis_transform", "compute_rwg_basis_transform_impl"), ("compute_rwg_div_transform", "compute_rwg_div_transform_impl"), ("compute_p1_curl_transformation", "compute_p1_curl_transformation_impl")):
+        fn = m.fn(fname)
+        defs = roles.Defs(fn)
+        sp = arg_names(fn)[0]
+        calls = [c for c in ast.walk(fn) if isinstance(c, ast.Call) and unparse(c.func) == impl]
+        ok = len(calls) == 1
+        why = "call of %s not found" % impl
+        if ok:
+            params = arg_names(m.fn(impl))
+            got = {p: roles.canon(a, defs).replace(" ", "") for p, a in zip(params, calls[0].args)}
+            want = {"grid_data": "%s.grid.data('double')" % sp, "support_elements": "%s.support_elements" % sp, "normal_multipliers": "%s.normal_multipliers" % sp,
+                    "local_multipliers": "%s.localised_space.local_multipliers" % sp, "quad_points": "rule(quadrature_order)[0]", "weights": "rule(quadrature_order)[1]",
+                    "shapeset_evaluate": "_rwg0_shapeset_evaluate", "basis_evaluate": "_numba_rwg0_evaluate"}
+            bad = ["%s <- %s" % (p, got[p]) for p in got if p in want and got[p] != want[p]]
+            src = unparse(fn).replace(" ", "")
+            chain = src.count("aslinearoperator(%s.map_to_localised_space)" % sp) >= 1 and src.count("aslinearoperator(%s.dof_transformation)" % sp) >= 1
+            ok = not bad and chain
+            why = "arguments by role: %s; followed by @ map_to_localised_space @ dof_transformation: %s" % (bad or "ok", chain)
+        r.check(ok, fname, FA, fname, fn.lineno, "transform caller " + fname, why)
+
+
 def transform_rows(ctx):
     """The FMM evaluates at one point cloud with nq points per GRID element (Grid.map_to_point_cloud); every matrix
     that maps space coefficients to values at those points must therefore use row nq*element + q (element NUMBER),
